@@ -198,6 +198,7 @@ theorem step_supply (ord : List Group → List Group) (w : World) (st : Step) (d
   cases st with
   | setVals v => simp [stepWorld, stepLocked, stepBurned, stepCredited]
   | restart => simp [stepWorld, stepLocked, stepBurned, stepCredited]
+  | blocks n => simp [stepWorld, stepLocked, stepBurned, stepCredited]
   | msg m =>
     cases m with
     | claim cm =>
